@@ -46,6 +46,9 @@ type Config struct {
 	// Message 1 for another name is answered with status 0Dh (unauthorized name).
 	Username  []byte
 	CheckUser bool
+	// AnnounceLen, if non-zero for payload k, replaces the payload-length byte (8)
+	// of algorithm payload k in the Open Session Response.
+	AnnounceLen [3]byte
 	// OpenRspPriv, if set, is the maximum privilege level placed in the Open
 	// Session Response instead of echoing the requested one.
 	OpenRspPriv *byte
@@ -279,7 +282,11 @@ func (b *BMC) openSession(rx *Rx) {
 		if b.Cfg.AnnounceWildcard[k] {
 			rsp = append(rsp, byte(k), 0, 0, 0, 0, 0, 0, 0)
 		} else {
-			rsp = append(rsp, algPayload(byte(k), alg)...)
+			pl := algPayload(byte(k), alg)
+			if b.Cfg.AnnounceLen[k] != 0 {
+				pl[3] = b.Cfg.AnnounceLen[k]
+			}
+			rsp = append(rsp, pl...)
 		}
 	}
 	rx.ReplyPType, rx.ReplyPayload = PTOpenRsp, rsp
